@@ -144,6 +144,11 @@ class VC:
             return None
         for reason in sorted(set(eng.unsupported)):
             self.undecided.append(Undecided(fnkey, 'UNSUPPORTED: %s' % reason))
+        for k in sorted('/'.join(sorted(ks)) for ks in eng.loop_keys_stated if not (ks & eng.loop_keys_hit)):
+            # a loop contract with clauses that no explored path ever applied: its key names no loop of the current code (or
+            # the loop is unreachable from this harness) -- what it states was NOT checked, so the function is not decided
+            self.undecided.append(Undecided(fnkey, 'UNSUPPORTED: CONTRACT-MAPPING loop contract %s was stated but never applied '
+                                                   'on any explored path' % k))
         self.entered = getattr(self, 'entered', set()) | eng.entered
         self.path_count += len(paths)
         for pi, p in enumerate(paths):
